@@ -14,6 +14,13 @@ package main
 //      body_text of every brace-free stretch (evaluated by the extracted Coq
 //      definition) between the known outputs of the tags; literal blocks and
 //      special-character commands must emit exactly their characters.
+//      What no longer rests on this check alone: a file that is ONE brace-free
+//      stretch of text with comments -- scanner model + parser model give the
+//      Spec's body_text (theorem C15_body_text_spec_partial; http://x clause:
+//      C15_http_not_comment), and comment-free text between the commands
+//      {sp} {nil} {\n} {\r} {\t} {lb} {rb} and {literal} blocks
+//      (C15_body_special_chars_spec, C15_literal_exact).  Still by this check
+//      only: comments next to tags, other tags as neighbours of text.
 
 import (
 	"encoding/hex"
